@@ -254,6 +254,9 @@ IdentityOnWire == wire # NoProof /\ ~MandatoryNonIdentity(wire)
 VerifyOutcome ==
   \/ degen'
   \/ ~CmpV /\ IdentityOnWire
+  \* the verifier crashed: a crash accepts nothing; that it must not happen is C08's statement (policed on the 256-bit curves, where a zero
+  \* challenge cannot be the cause) and C03's (a crash is not the specification's verdict)
+  \/ ~CmpV /\ Has(Ev, "panicked") /\ Ev.panicked
   \/ /\ CmpV => (res'.V = Ev.res /\ RefExplains)
      /\ CmpK => ((Ev.res = "InvalidGeneratorsLength") <=> (res'.V = "InvalidGeneratorsLength"))
      /\ CmpI => IntegrityOrder(Ev.tx, NewOps("V"))
